@@ -23,11 +23,12 @@ LEVEL_TEXT = ("Every accepted solver x datafit x penalty composition is run on g
 LEVEL_NOTE = ("trusted: vlib/refmath.py (subdifferentials, proxes, gradients); only returns with stop_crit <= tol decide; "
               "problems n<=40, p<=25; violations below tol*1e-6 + 1e-10*(1+|grad|) are invisible")
 RULE = ("cases = (solver, datafit, penalty, storage, intercept, strategy, tol, p0, budgets, warm start, alpha fraction, "
-        "design class) drawn per cell from seeded generators; non-trivial = the return claims convergence (stop_crit <= "
-        "tol), distinct = digest of the case spec")
+        "design class) drawn per cell from seeded generators, each converged case followed by restarts from its optimum "
+        "with one coordinate / the intercept moved; non-trivial = the return claims convergence (stop_crit <= tol), "
+        "distinct = digest of the case spec (+ perturbation kind)")
 SLACK = O.SLACK
 ASSUMPTIONS = ["reference certificate in vlib/refmath.py", "Xw_init always consistent with w_init (generator-enforced)"]
-FLOOR = {"quick": 300, "thorough": 5000}
+FLOOR = {"quick": 600, "thorough": 10000}
 REPS = {"quick": 5, "thorough": 60}
 SOLVERS = ["AndersonCD", "ProxNewton", "GroupBCD", "GroupProxNewton", "MultiTaskBCD", "GramCD", "LBFGS"]
 
@@ -149,3 +150,57 @@ def run_case(emit, cid, cs, sample=False):
         rec["sample"] = dict(case=desc, stop_crit=f.get("stop"), reference_violation=f.get("cert"),
                              converged=f.get("converged"))
     emit(rec)
+    # ---- second act: restart from the converged point with ONE coordinate moved off its optimal value.  A stopping
+    # rule that overlooks some kind of coordinate (a zero inside an active group, an unpenalised or bound feature, the
+    # intercept, a feature outside the first working set) then claims convergence at once.
+    if rec["status"] == "held" and f.get("converged") and case.solver_name not in ("LBFGS",) and cs.get("perturb", True):
+        import copy
+        rng = rng_for("C01-perturb", cs["seed"], *cs["coords"])
+        w_opt = np.array(out["w"], dtype=float, copy=True)
+        body = w_opt[:-1] if case.fit_intercept else w_opt
+        nzr = np.flatnonzero(np.any(body.reshape(body.shape[0], -1) != 0, axis=1))
+        zr = np.flatnonzero(~np.any(body.reshape(body.shape[0], -1) != 0, axis=1))
+        kinds = []
+        if len(nzr):
+            kinds += ["zero_a_nonzero"]
+        if len(zr):
+            kinds += ["activate_a_zero"]
+        if case.fit_intercept:
+            kinds += ["shift_intercept"]
+        for kind in kinds:
+            w1 = w_opt.copy()
+            b1 = w1[:-1] if case.fit_intercept else w1
+            if kind == "zero_a_nonzero":
+                b1[int(rng.choice(nzr))] = 0.0
+            elif kind == "activate_a_zero":
+                j = int(rng.choice(zr))
+                b1[j] = abs(rng.standard_normal()) * (0.3 + float(np.max(np.abs(body)))) if b1.ndim == 1 else \
+                    np.abs(rng.standard_normal(b1.shape[1])) * (0.3 + float(np.max(np.abs(body))))
+                if case.ref_pen.kind == "box":
+                    b1[j] = min(b1[j], case.alpha)
+            else:
+                w1[-1] = w1[-1] + (1.0 + abs(rng.standard_normal())) * (1 if rng.random() < 0.5 else -1)
+            wb, bb = case.ref.split(w1)
+            xw1 = np.ascontiguousarray(case.Xd @ wb + bb)
+            o2 = case.solve(np.ascontiguousarray(w1), xw1)
+            f2 = O.judge_return(case, o2, tol)
+            cid2 = "%s/perturb:%s" % (cid, kind)
+            r2 = dict(id=cid2, cell=cell, digest=digest(cs, kind), hist={"tol": tol, "warm": "optimum+" + kind},
+                      nontrivial=bool(f2.get("converged") and "cert" in f2))
+            if f2["exc"] is not None or "cert_error" in f2:
+                r2.update(status="refused", nontrivial=False, obs=dict(exc=f2.get("exc"), err=f2.get("cert_error")))
+            elif O.cert_violated(f2, tol):
+                comp = "intercept" if f2.get("cert_intercept", 0) >= f2.get("cert_units", 0) else "feature"
+                r2.update(status="violated",
+                          viol=dict(mechanism="converged-claim-fails-certificate", solver=case.solver_name,
+                                    datafit=case.df_name, penalty=case.pen_name, storage=case.storage,
+                                    fit_intercept=case.fit_intercept, strategy=case.strategy, component=comp, tol=tol,
+                                    stop=f2["stop"], cert=f2["cert"], ratio=f2["cert"] / tol if tol else None,
+                                    start="optimum+" + kind, n_outer=f2.get("n_obj"),
+                                    detail="restart from the optimum with %s: stop_crit=%.3g <= tol=%.1g after %s outer "
+                                           "iterations but reference violation=%.3g (%s)" % (
+                                               kind, f2["stop"], tol, f2.get("n_obj"), f2["cert"], comp)),
+                          obs=dict(case=desc, facts=f2, w_start=small(w1, 30), w=small(o2["w"], 30)))
+            else:
+                r2["status"] = "held"
+            emit(r2)
